@@ -18,6 +18,7 @@ DOCS = {
     "rec-chain-under-let": 'let\n  c = 5;\nin\nrec {\n  a = b;\n  b = c;\n  c = 1;\n}\n',
     "rec-uses-let": 'let\n  x = 1;\nin\nrec {\n  a = x;\n  k = 0;\n}\n',
     "let-chain": 'let\n  x = 1;\n  b = x;\nin\n{\n  a = b;\n  k = 0;\n}\n',
+    "rec-under-two-lets": 'let\n  k = 0;\nin\nlet\n  x = 1;\nin\nrec {\n  a = x;\n}\n',
     "two-lets": 'let\n  x = 1;\nin\nlet\n  c = x;\nin\n{\n  a = c;\n  k = 0;\n}\n',
     "with-env": 'with {\n  x = 1;\n};\nrec {\n  a = x;\n  k = 0;\n}\n',
     # no enclosing scope at all: nothing re-attaches a context, so whatever an expression carries with it is what gets used
@@ -165,6 +166,9 @@ def run(prop, tier, seed):
         # what went before, reduced to the kinds of operations (the defect is in the history, not in the values)
         hist = ",".join(o[0] + (":" + o[1] if o[0] in ("rm", "mapdel", "mapset", "scopeset") or o[1].startswith("@") else "") for o in it[1][:k])
         sig = f"{sym}|{it[0]}|after [{hist}]|{op[0]} {op[1]}"
+        if it[0].startswith("rec-under-two-lets") and any(tuple(o[:2]) == ("rm", "@x") for o in it[1][:k]):
+            # one root cause: the rec set keeps the scope chain it was first given (recorded finding)
+            sig = f"{sym}|{it[0].split('@')[0]}|a rec set below two let layers keeps its scope chain after `rm @x`|{op[0]} {op[1]}"
         if sig not in vio:
             vio[sig] = dict(check="live-vs-fresh", signature=sig,
                             what=f"{prop} {sym}: document {it[0]}, history {it[1][:k]}, then {op}: fresh parse gives {want}, live object gives {got}",
